@@ -31,7 +31,7 @@ LEVEL = "exploration"
 RULE = ("Cases: (generation mode default(-1)/positive, first round = C14 bounded input for the sticky assignor, "
         "list of steps same/remove/add/partitions); previous assignments travel as real user data. Enumerated: "
         "every first-round input of 1..4 members x 1..3 topics x {no metadata, 0..4 partitions} x every non-empty "
-        "subscription per member (quick: 1..3 members, 0..3 partitions), each followed by exactly one second round "
+        "subscription per member (quick: 1..3 members, {no metadata, 1..3 partitions}), each followed by exactly one second round "
         "out of: same; minus every non-empty proper subset of members; plus new members {m9}, {a0}, {a0,m9} "
         "(sorting after/before the old ones) subscribing like m0 or to all topics; generation mode default for all of "
         "these, positive for first rounds of up to 3 members (quick: up to 2). "
@@ -331,10 +331,10 @@ def campaigns(tier):
     thorough = tier == "thorough"
     if thorough:
         pairs = Campaign("pairs", "enum", execute=exec_pair, exhaustive=True,
-                         cases=lambda s, n: _pair_cases(s, n, 4, ac.PART_CHOICES, 3))
+                         cases=lambda s, n: _pair_cases(s, n, 4, ac.PART_CHOICES, 3), max_wall=1500)
     else:
         pairs = Campaign("pairs", "enum", execute=exec_pair, exhaustive=True,
-                         cases=lambda s, n: _pair_cases(s, n, 3, (None, 0, 1, 2, 3), 2))
+                         cases=lambda s, n: _pair_cases(s, n, 3, (None, 1, 2, 3), 2))
     return [
         pairs,
         Campaign("identical_chains", "enum", execute=exec_chain, exhaustive=True,
